@@ -42,7 +42,8 @@ def fingerprint_hostname(hostname, strip_suffix=False):
         # TODO: this is not performant because the code path reparses again
         r = split_suffix(hostname)
 
-        if r is not None:
+        # NOTE: a hostname which is only a suffix has nothing else to keep
+        if r is not None and r[0]:
             hostname, _ = r
 
     return hostname
@@ -103,7 +104,8 @@ def fingerprint_url(url, unsplit=True, strip_suffix=False, platform_aware=False)
             # TODO: this is not performant because the code path reparses again
             r = split_suffix(hostname)
 
-            if r is not None:
+            # NOTE: a hostname which is only a suffix has nothing else to keep
+            if r is not None and r[0]:
                 hostname, _ = r
 
     # Dropping port
